@@ -132,6 +132,7 @@ class Fn:
         self.locals = self.mir["locals"]
         self.argc = self.mir["argc"]
         self.file = self.mir["file"]
+        self.real_file = self.mir.get("real_file", self.file)
         self.line = self.mir["line"]
         self.n = len(self.blocks)
         self._succ_cache = {}
@@ -505,7 +506,7 @@ class Fn:
     def loc(self, bb):
         b = self.blocks[bb]
         t = b.get("inl_call") or b["term"]
-        return "%s:%d" % (b.get("file") or self.file, t["line"])
+        return "%s:%d" % (b.get("file") or self.real_file, t["line"])
 
     def src_of(self, bb):
         """def path of the function whose body block bb was copied from (inlined bodies), else this function"""
@@ -794,6 +795,86 @@ class Facts:
             text = _re.sub(_re.escape(old) + r"(?![A-Za-z0-9_])", canon, text)
         return text, moves
 
+    @staticmethod
+    def _canonicalise_impls(text, d):
+        import re as _re
+        local_adts = {a["id"] for a in d["adts"] if str(a.get("file", "")).startswith("src/")}
+        rx = _re.compile(r"((?:\w+::)+)<impl ((?:\w+::)*\w+)(?:<([^<>]*)>)?>::")
+        hit = [False]
+        def sub(m):
+            if m.group(2) not in local_adts:
+                return m.group(0)
+            hit[0] = True
+            return m.group(2) + ("::<" + m.group(3) + ">" if m.group(3) else "") + "::"
+        t2 = rx.sub(sub, text)
+        return t2 if hit[0] else None
+
+    @staticmethod
+    def _fold_units(d):
+        import re as _re
+        files = {b["mir"]["file"] for b in d["bodies"] if b.get("local") and b.get("mir")} | {a.get("file") for a in d["adts"]}
+        files = {f for f in files if isinstance(f, str) and f.startswith("src/")}
+        fold = {}
+        for a in d["adts"]:
+            if a["id"] not in Facts.ANCHOR_ADTS:
+                continue
+            F = a.get("file") or ""
+            m = _re.match(r"^(src/.+)/mod\.rs$", F) or _re.match(r"^(src/.+)\.rs$", F)
+            if not m or m.group(1) in ("src/lib", "src/main"):
+                continue
+            D = m.group(1) + "/"
+            for f in files:
+                if f.startswith(D) and f != F:
+                    fold[f] = F
+        if not fold:
+            return {}
+        def fix(m):
+            if isinstance(m, dict) and m.get("file") in fold:
+                m["real_file"] = m["file"]
+                m["file"] = fold[m["file"]]
+        for b in d["bodies"]:
+            fix(b.get("mir"))
+            for pm in b.get("promoted", []) or []:
+                fix(pm if "file" in pm else pm.get("mir"))
+        for a in d["adts"]:
+            fix(a)
+        for s_ in d.get("statics", []):
+            fix(s_.get("mir"))
+        return fold
+
+    def _fold_named_consts(self):
+        """a use of a named constant of the crate whose value is a plain literal (`const HEADER_EXPECT: &str = "Expect"`) reads as the literal"""
+        cs = [s_ for s_ in self.d.get("statics", []) if s_.get("const")]
+        if not cs:
+            return
+        import symex
+        vals = {}
+        for s_ in cs:
+            try:
+                v = symex.named_const_value(self, s_["id"])
+            except Exception:
+                v = None
+            if v and v[0] == "const" and isinstance(v[2], str) and v[1] is not None:
+                vals[s_["id"]] = v[2]
+        if not vals:
+            return
+        def walk(x):
+            if isinstance(x, dict):
+                if x.get("k") == "const" and x.get("const_def") in vals and "ev" not in x:
+                    x["named"] = x.pop("const_def")
+                    x["v"] = vals[x["named"]]
+                    return
+                for y in x.values():
+                    walk(y)
+            elif isinstance(x, list):
+                for y in x:
+                    walk(y)
+        for b in self.d["bodies"]:
+            if b.get("local") and b.get("mir"):
+                walk(b["mir"]["blocks"])
+                for pm in b.get("promoted", []) or []:
+                    walk(pm)
+
     def __init__(self, path):
         self.path = path
         with open(path) as f:
@@ -807,6 +888,18 @@ class Facts:
                 self.moved = moves
         except Exception:
             pass
+        # impl blocks of a local type written in another module (`request::answer::<impl request::Request>::respond`): its methods are
+        # named after the type, wherever the block is
+        try:
+            t3 = Facts._canonicalise_impls(json.dumps(self.d) if self.moved else text, self.d)
+            if t3 is not None:
+                self.d = json.loads(t3)
+        except Exception:
+            pass
+        # a module that defines one of the anchor types and is split over submodule files (`request/mod.rs` + `request/body.rs` ...) is one
+        # unit: "the same file" means "the same unit" to every rule (source locations keep the real file)
+        self.units = Facts._fold_units(self.d)
+        self._fold_named_consts()
         self.crate = self.d["crate"]
         self.fns = {}
         for b in self.d["bodies"]:
